@@ -164,6 +164,21 @@ def run(ctx):
             except AssertionError:
                 real = "AssertionError"
             n_cases += 1
+            V = bits - (1 if sg else 0)
+            lo_t = -(2 ** V) if sg else 0
+            truth, q = 0, av
+            for pp in range(1, 260):
+                if lo_t <= q < 2 ** V:
+                    truth = pp
+                elif abs(q) >= 2 ** (V + 1):
+                    break
+                q *= av
+            if real != truth:
+                found = True
+                ctx.violation("failing-input", "calculate_largest_power returns a wrong power",
+                              {"call": f"calculate_largest_power({av}, {bits}, {sg})", "expected": truth, "result": str(real)},
+                              key="C20:largest_power-wrong")
+                break
             if o2[i] != real:
                 ctx.violation("correspondence-broken", "GenPow.calculate_largest_power differs from CPython",
                               {"args": [str(av), bits, sg, str(g)], "model": str(o2[i]), "real": str(real)})
